@@ -105,9 +105,16 @@ def self_ty_base(t):
 CONST_LITS = {}   # name -> text of `const NAME: &str / char = <literal>` of the analysed crates (None: ambiguous)
 
 
+CONST_LOADER = None   # set by the harness: loads every crate index once, so that the table is complete whichever pack asks first
+
+
 def const_text(a):
     """literal text of an expression that names a text constant, else None"""
+    global CONST_LOADER
     a = strip_ref(a)
+    if CONST_LOADER is not None and a.get("k") == "path":
+        ld, CONST_LOADER = CONST_LOADER, None
+        ld()
     if a.get("k") == "path" and CONST_LITS.get(a["segs"][-1]) is not None and a["segs"][-1].isupper() or \
             (a.get("k") == "path" and CONST_LITS.get(a["segs"][-1]) is not None and a["segs"][-1].upper() == a["segs"][-1]):
         return CONST_LITS[a["segs"][-1]]
@@ -425,7 +432,7 @@ def parse_format(s):
     return out
 
 
-def format_args_of(n):
+def format_args_of(n, resolve_consts=True):
     """If n is `format_args!(..)` (expanded view) or write!/format!-like macro (original view), return
     (pieces, arg_nodes) where pieces come from parse_format with holes resolved to argument nodes:
     list of ('lit', text) / ('hole', node, spec)."""
@@ -466,7 +473,7 @@ def format_args_of(n):
                 node = pos[int(arg)] if int(arg) < len(pos) else None
             else:
                 node = named.get(arg) or {"k": "path", "s": arg, "segs": [arg], "sp": n["sp"]}
-            if node is not None and p[2] in ("", None) and const_text(node) is not None:
+            if resolve_consts and node is not None and p[2] in ("", None) and const_text(node) is not None:
                 pieces.append(("lit", const_text(node)))
             else:
                 pieces.append(("hole", node, p[2]))
